@@ -197,6 +197,29 @@ theorem install_during_incremental_persist_exits_witness :
     resolve (run 3 {} installDuringIncremental).snaps = some [9] ∧
     (run 3 {} installDuringIncremental).pend = none := by decide
 
+/-- In general, not only on that history: with the requirement tokens, after ANY history, whenever
+the modification-time guard would fire (the database file changed after the recorded time) the
+FULL_NEEDED flag is set as well — so `snapshotDueNext` decides the same with the guard switched
+off, and the staged WAL segments are the delta to the database file whenever the FLAG is clear
+(`ChainInv.staged` without its guard hypothesis). -/
+theorem mtime_guard_implied_by_flag (ops : List Op) :
+    let s := run 3 {} ops
+    (s.modified = true → s.fullNeeded = true) ∧
+    fullDue { s with modified := false } = fullDue s ∧
+    (s.fullNeeded = false → s.snaps ≠ [] → s.staged.foldl applySeg (resolve s.snaps) = some s.file) := by
+  intro s
+  have hg : GuardInv s := guard_run ops {} guardInv_init
+  have hc : ChainInv s := chain_inv ops
+  have hmod : s.fullNeeded = false → s.modified = false := by
+    intro hf
+    cases hm : s.modified with
+    | false => rfl
+    | true => rw [hg.flag hm] at hf; cases hf
+  refine ⟨hg.flag, ?_, fun hf hne => hc.staged hf (hmod hf) hne⟩
+  cases hm : s.modified with
+  | false => simp [fullDue, hm]
+  | true => simp [fullDue, hm, hg.flag hm]
+
 /-! ### tie to the source (regenerated on every run) -/
 
 /-- the places the model drops the staging directory / raises the requirement are in the source:
